@@ -19,7 +19,7 @@ GROWTH = {
     "gd": (0, 2, 1, 0, 0, 0), "avg": (0, 2, 0, 0, 0, 0), "adjoint": (0, 1, 0, 0, 0, 0),
     "set_v": (0, 1, 0, 0, 0, 0), "block": (0, 1, 0, 0, 0, 0),
     "expr": (0, 0, 1, 0, 0, 0), "cons": (0, 0, 0, 1, 0, 0), "redeclare": (0, 0, 0, 1, 0, 0),
-    "lmi": (0, 0, 0, 0, 1, 0), "metric": (0, 0, 0, 0, 0, 0),
+    "lmi": (0, 0, 0, 0, 1, 0), "metric": (0, 0, 0, 0, 0, 0), "ball_all": (0, 0, 0, 1, 0, 0),
 }
 STEP_GROWTH = {  # (nP, nE)
     "prox": (2, 1), "inexact_grad": (2, 1), "linesearch": (2, 1), "inexact_prox": (4, 3), "eps_subgrad": (2, 2),
@@ -566,3 +566,32 @@ def model_lmi_order(draw):
         if draw(st.booleans()):
             em.emit("metric", t, None)
     return {"instrs": em.instrs, "meta": {"cls": base["meta"]["cls"], "tags": ["lmi_order", "lmi"], "n_instr": len(em.instrs)}}
+
+
+@st.composite
+def wild_model(draw, max_len=14):
+    """A random legal instruction soup (all classes, all steps, constraints on PEP / functions / composites, LMIs,
+    partitions ...) made bounded by a ball constraint over every leaf point and metrics that are inner products only."""
+    from vf.checks.c05 import soup
+    raw = draw(soup(max_len=max_len))
+    em = Emitter()
+    for ins in raw:
+        if ins[0] in ("metric", "redeclare"):
+            continue
+        if ins[0] == "cons" and ins[1] == "init":
+            ins = list(ins)
+            ins[1] = "pep"
+        em.emit(*ins)
+    nP = em.n["P"]
+    for _ in range(draw(st.integers(1, 3))):
+        k = draw(st.sampled_from(["sq", "sqdist", "dot"]))
+        if k == "sq":
+            em.expr("sq", draw(st.integers(0, nP - 1)))
+        else:
+            em.expr(k, draw(st.integers(0, nP - 1)), draw(st.integers(0, nP - 1)))
+        # index -1 = the expression just created (soup instructions may be skipped at run time, so absolute
+        # register numbers of the emitter are only upper bounds here)
+        em.emit("metric", -1, None)
+    em.emit("ball_all", draw(st.sampled_from([1, 0.25, 4])))
+    cls = sorted(set(i[1] for i in em.instrs if i[0] == "func"))
+    return {"instrs": em.instrs, "meta": {"cls": "+".join(cls)[:60], "tags": ["wild"], "n_instr": len(em.instrs)}}
